@@ -157,6 +157,61 @@ pub fn run_parse(a: &Automaton, input: &[u8], claimed: Option<Vec<u64>>, k: u32)
     }
 }
 
+/// Like `run_parse` without claimed markers, and the structure read back from the mock prover
+/// (lookup, loaded table, rows and copy constraints of the parsing region).
+pub fn run_parse_traced(
+    a: &Automaton,
+    input: &[u8],
+    k: u32,
+) -> (Verdict, Option<Result<crate::trace::ParseTrace, String>>) {
+    let out = Arc::new(Mutex::new(vec![]));
+    let circuit = ParseCircuit {
+        automaton: a.clone(),
+        input: input.to_vec(),
+        claimed: None,
+        out: out.clone(),
+    };
+    match mzkh::catch(|| MockProver::run(k, &circuit, vec![vec![], vec![]])) {
+        Err(p) => (Verdict::Panic(p), None),
+        Ok(Err(_)) => (Verdict::Stuck, None),
+        Ok(Ok(prover)) => {
+            let nb_fixed = prover.fixed().len() - prover.selectors().len();
+            let tr = mzkh::catch(|| crate::trace::extract(&prover, nb_fixed))
+                .unwrap_or_else(|p| Err(format!("panic {p}")));
+            match prover.verify() {
+                Ok(()) => (Verdict::Ok(out.lock().unwrap().clone()), Some(tr)),
+                Err(_) => (Verdict::Unsat, Some(tr)),
+            }
+        }
+    }
+}
+
+/// Forged witness: the honest synthesis on `input` (which must not get stuck), then the state
+/// cells of the parsing region are overwritten with `states` (one per row, shifted values) and
+/// the output cells with `outs`. Returns whether the mock prover accepts the forged table
+/// (`None` if there is no table to forge).
+pub fn run_parse_forged(a: &Automaton, input: &[u8], k: u32, states: &[u64], outs: &[u64]) -> Option<bool> {
+    use midnight_proofs::dev::CellValue;
+    let out = Arc::new(Mutex::new(vec![]));
+    let circuit = ParseCircuit {
+        automaton: a.clone(),
+        input: input.to_vec(),
+        claimed: None,
+        out,
+    };
+    let mut prover = mzkh::catch(|| MockProver::run(k, &circuit, vec![vec![], vec![]])).ok()?.ok()?;
+    let nb_fixed = prover.fixed().len() - prover.selectors().len();
+    let tr = mzkh::catch(|| crate::trace::extract(&prover, nb_fixed)).ok()?.ok()?;
+    let adv = prover.verif_advice_mut();
+    for (i, s) in states.iter().enumerate() {
+        adv[tr.state_col][tr.r0 + i] = CellValue::Assigned(F::from(*s));
+    }
+    for (i, o) in outs.iter().enumerate() {
+        adv[tr.out_col][tr.r0 + i] = CellValue::Assigned(F::from(*o));
+    }
+    Some(prover.verify().is_ok())
+}
+
 // ---------------------------------------------------------------------------------------------
 // Base64
 // ---------------------------------------------------------------------------------------------
